@@ -465,6 +465,19 @@ func (fx *FnExec) checkPost(st *State, res []Val) {
 		return
 	}
 	env := fx.envFor(st, fx.fn, res)
+	if len(fx.fc.Lemmas) > 0 {
+		st = st.fork() // lemmas are assumed only for this return path's remaining obligations
+		env = fx.envFor(st, fx.fn, res)
+		for _, c := range fx.fc.Lemmas {
+			f, err := fx.safeTr(env, c)
+			if err != nil {
+				fx.bindFail(c, err)
+				continue
+			}
+			fx.emit(st, &Obligation{Kind: "post", Name: "lemma." + c.Name, Props: c.Props, Goal: f, Clause: c.Name})
+			st.assume(f)
+		}
+	}
 	for _, c := range fx.fc.Ensures {
 		if c.Kind == "ensures" && strings.HasPrefix(c.Name, "ghost.") {
 			continue // ghost naming clauses are definitions, assumed by callers only
